@@ -4,6 +4,7 @@ import VlsModel.Lemmas.MonitorSim
 import VlsModel.Lemmas.MonitorPre
 import VlsModel.Lemmas.MonitorWF
 import VlsModel.Lemmas.MonitorChain
+import VlsModel.Lemmas.MonitorView
 /-
 C14 — The monitor's view of a channel is a function of the best chain.
 
@@ -1152,5 +1153,80 @@ example : ConsRun 7 [(1, 0)] (exS0, []) [.add exFundingBlock, .add exCloseSweepB
 example : (run (exS0, []) [.add exFundingBlock, .add exCloseSweepBlock, .remove]).map
     (fun p => (p.1.height, p.1.fundingHeight, p.1.closing, p.2)) =
     some (101, some 101, none, [exFundingBlock]) := by decide
+
+/-! ## The views other components read: funding depth, double-spend depth, closing depth, `as_chain_state`
+
+The statement speaks of "each channel's view of its funding depth, double-spend, mutual or unilateral close".  The code
+hands these out through `ChainMonitor::{funding_depth, funding_double_spent_depth, closing_depth}` (saturating
+`depth_of`) and `ChainMonitorBase::as_chain_state` (plain `height + 1 - h`), modelled as `State.fundingDepth`,
+`dsDepth`, `closingDepth`, `chainState`.  They are functions of the state, so the best-chain theorems carry over;
+what is specific to them: `as_chain_state` cannot underflow on any state reached by connecting blocks, and then the two
+families agree. -/
+
+/-- a replay of a chain from a state without recorded heights above its height keeps that invariant -/
+theorem replay_heightsOk {s0 s : State} (h0 : HeightsOk s0) :
+    ∀ {st : List (List Tx)}, replay s0 st = some s → HeightsOk s ∧ s.height = s0.height + st.length := by
+  intro st
+  induction st generalizing s with
+  | nil => intro e; simp only [replay, Option.some.injEq] at e; subst e; exact ⟨h0, rfl⟩
+  | cons txs st ih =>
+    intro e
+    simp only [replay] at e
+    cases hr : replay s0 st with
+    | none => simp [hr] at e
+    | some s1 =>
+      simp only [hr, Option.bind_some] at e
+      obtain ⟨d, hd, rfl⟩ := Option.map_eq_some_iff.mp e
+      obtain ⟨s2, a, r⟩ := d
+      obtain ⟨h1, e1⟩ := ih hr
+      obtain ⟨h2, e2⟩ := addBlock_heightsOk h1 hd
+      exact ⟨h2, by simp only [List.length_cons]; rw [e2, e1]; omega⟩
+
+/-- **C14, views.** After any valid history of connections and disconnections (hypotheses of `C14_best_chain_valid`)
+    starting from a state with no recorded height above its own: the monitor's height is the start height plus the
+    length of the surviving chain, `as_chain_state` does not panic, and it reports exactly the depths
+    `funding_depth` / `funding_double_spent_depth` report — all of them being those of the replay of the surviving
+    chain (`hrep`). -/
+theorem C14_views_best_chain {s0 s : State} {st : List (List Tx)} {ops : List Op}
+    (h0 : s0.sawBlock = true) (hh : HeightsOk s0) (hg : ValidRun (s0, []) ops)
+    (hr : run (s0, []) ops = some (s, st)) :
+    replay s0 st = some s ∧ s.height = s0.height + st.length ∧ HeightsOk s ∧
+    ∃ c, s.chainState = some c ∧ c.currentHeight = s.height ∧ c.fundingDepth = s.fundingDepth ∧
+      c.dsDepth = s.dsDepth ∧
+      ((s.uniHeight = none ∨ s.mutualHeight = none) → c.closingDepth = s.closingDepth) := by
+  have hrep := C14_best_chain_valid h0 hg hr
+  obtain ⟨hs, hlen⟩ := replay_heightsOk hh hrep
+  refine ⟨hrep, hlen, hs, _, chainState_of_heightsOk hs, rfl, rfl, rfl, fun hb => closingDepth_pref hb⟩
+
+/-- connect-then-disconnect restores every view (corollary of `C14_roundtrip_valid`: the state is restored up to
+    `saw_block`, which no view reads) -/
+theorem C14_roundtrip_views {s s1 : State} {txs : List Tx} {a r : List OutPoint}
+    (hwf : WF s) (v : ValidBlock s txs) (f : SpendFresh s txs) (hadd : addBlock s txs = some (s1, a, r)) :
+    ∃ s2 a' r', removeBlock s1 txs = some (s2, a', r') ∧
+      s2.fundingDepth = s.fundingDepth ∧ s2.dsDepth = s.dsDepth ∧ s2.closingDepth = s.closingDepth ∧
+      s2.chainState = s.chainState := by
+  obtain ⟨a', r', hrem, _⟩ := C14_roundtrip_valid hwf v f hadd
+  exact ⟨_, a', r', hrem, rfl, rfl, rfl, rfl⟩
+
+/-- a freshly confirmed funding has depth 1; each further block adds exactly 1; un-confirmed is 0 -/
+theorem C14_funding_depth_counts {s s' : State} {txs : List Tx} {a r : List OutPoint} (hh : HeightsOk s)
+    (hadd : addBlock s txs = some (s', a, r)) :
+    (s'.fundingHeight = none → s'.fundingDepth = 0) ∧
+    (s'.fundingHeight = some s'.height → s'.fundingDepth = 1) ∧
+    (∀ x, s.fundingHeight = some x → s'.fundingHeight = some x → s'.fundingDepth = s.fundingDepth + 1) := by
+  obtain ⟨_, e⟩ := addBlock_heightsOk hh hadd
+  refine ⟨fun h => ?_, fun h => ?_, fun x h1 h2 => ?_⟩
+  · unfold State.fundingDepth; rw [h]; exact depthOf_none _
+  · unfold State.fundingDepth; rw [h]; exact depthOf_self _
+  · unfold State.fundingDepth; rw [h1, h2]; exact depthOf_succ (hh.hFunding x h1) e
+
+/-- non-vacuity: funding confirmed at 101, two more blocks: depth 3, chain state (103, 3, 0, 0) -/
+example :
+    (run (exS0, []) [.add exFundingBlock, .add [], .add []]).map
+      (fun p => (p.1.fundingDepth, p.1.dsDepth, p.1.closingDepth, p.1.chainState)) =
+    some (3, 0, 0, some ⟨103, 3, 0, 0⟩) := by decide
+
+/-- the hypothesis is needed: with a recorded height above `height + 1` the real `as_chain_state` underflows -/
+example : ({ exS0 with fundingHeight := some 105 } : State).chainState = none := by decide
 
 end VlsModel.Props.C14
